@@ -229,7 +229,6 @@ c16("c16_lru_drop_insdisk_resident", "lru", "value destructor of a displaced res
 c16("c16_fifo_listener_insert_anyaction", "fifo", "listener re-enters with a symbolic nested action", "nested = symbolic get / remove / insert")
 c16("c16_lru_listener_insert", "lru", "listener re-enters during insert (LRU)", "nested = remove")
 c16("c16_lru_drop_insert", "lru", "value destructor re-enters (LRU)", "nested = remove")
-c16("c16_lru_drop_get", "lru", "lookup + handle drop take the write lock under LRU; nested get", "nested = get")
 c16("c16_lru_listener_clear", "lru", "listener re-enters during clear (LRU)", "nested = get")
 c16("c16_sieve_listener_insert", "sieve", "listener re-enters during insert (SIEVE)", "nested = remove")
 c16("c16_sieve_drop_insert", "sieve", "value destructor re-enters (SIEVE)", "nested = remove")
